@@ -13,7 +13,7 @@ RULE = ("random histories of the real app mixing genuine votes (full / minimal /
 def run(tier, seed, work):
     quick = tier == "quick"
     mc = [("MC_Relayer.tla", "MC_Relayer_quick.cfg" if quick else "MC_Relayer_thorough.cfg")]
-    per, depth, nj = (4, 30, 16) if quick else (40, 40, 16)
+    per, depth, nj = (8, 30, 16) if quick else (40, 40, 16)
     groups = [("Trace_Relayer.tla", "Trace_Relayer_C02.cfg", rc.jobs(seed, per, depth, nj, 3, 2, "c02"))]
     return verif.run_stateful_check("C02", tier, seed, work, mc_list=mc, groups=groups, key_fn=rc.key,
                                     level="model_checking", assumptions=ASSUME, rule=RULE)
